@@ -373,7 +373,13 @@ def inject_run(job):
     cls = "before" if a == job["pre_abs"] else ("after" if a == job["post_abs"] else "neither")
     if job["pre_abs"] == job["post_abs"]:
         cls = "same"
+    if cls == "neither" and any(a == al for al in job.get("allowed", ())):
+        cls = "unit-boundary"      # several atomic units (home + predefined collections): a prefix / subset of them is complete
     res["cls"] = cls
+    # the visible store in model terms, for the exact comparison with the model's prediction
+    nm, ct = job["names"].copy(), job["contents"].copy()
+    res["abs_model"] = [((("Root",),) if rel == "" else nm.path("collection-root/" + rel), "D" if v is None else ct.id(v))
+                        for rel, v in sorted(a.items())]
     if cls == "neither":
         d1 = sorted(k for k in set(a) | set(job["pre_abs"]) if a.get(k, 0) != job["pre_abs"].get(k, 0))
         d2 = sorted(k for k in set(a) | set(job["post_abs"]) if a.get(k, 0) != job["post_abs"].get(k, 0))
